@@ -219,11 +219,11 @@ fn c03_queue_capacity_is_rwnd() {
     let mut k = 0;
     while k < rwnd {
         let r = slot.dispatch(Bytes::from_static(b"x"));
-        assert!(matches!(r, Some(Ok(()))), "C03.queue.accepts: rwnd frames fit into the inbound queue");
+        assert!(matches!(r, Some(Ok(()))), "C03+C10.queue.accepts: rwnd frames fit into the inbound queue (a peer that stays within the advertised window is never refused)");
         k += 1;
     }
     let r = slot.dispatch(Bytes::from_static(b"x"));
-    assert!(matches!(r, Some(Err(TrySendError::Full(())))), "C03.queue.full: frame rwnd+1 is refused as Full (-> Reset of that flow), never blocks");
+    assert!(matches!(r, Some(Err(TrySendError::Full(())))), "C03+C10.queue.full: frame rwnd+1 is refused as Full (-> Reset of that flow), never blocks");
     core::mem::forget((s, slot, w));
 }
 
